@@ -35,6 +35,43 @@ def witness(x) -> np.ndarray:
     return out
 
 
+def alias_entries(M, tag, limit=6):
+    """replace entries whose polynomial has more than `limit` terms by a fresh alias variable with the
+    defining equation alias == entry (keeps stub contracts small; nothing is lost: the definition is an
+    assumption the solver can unfold)"""
+    from .scalars import alias_poly
+
+    Mo = obj(M)
+    out = np.empty(Mo.shape, dtype=object)
+    for idx in np.ndindex(*Mo.shape):
+        v = Mo[idx]
+        if not isinstance(v, Sym) or len(v.p.t) <= limit:
+            out[idx] = v
+        else:
+            out[idx] = Sym(alias_poly(v.p, f"alias ({tag})"))
+    return SymArray(out, reported_dtype(M))
+
+
+def _safe(f, *a, **k):
+    """run the real routine on witness values; None when it fails (non-witness paths)"""
+    try:
+        with np.errstate(all="ignore"):
+            return f(*a, **k)
+    except Exception:
+        return None
+
+
+def witness_or_none(x):
+    try:
+        w = witness(x)
+    except EngineError:
+        cur().on_witness = False
+        return None
+    if not np.all(np.isfinite(w)):
+        return None
+    return w
+
+
 def _key(x):
     a = obj(x)
     return (a.shape, tuple(v.p.key() if isinstance(v, Sym) else ("c", repr(v)) for v in a.flat))
@@ -121,8 +158,15 @@ def _svd_generic(M, k_keep, full_matrices, routine_name, exact=True):
     if key in cache:
         c.stub_log.append({"stub": routine_name, "shape": [n, p], "k": k_keep, "cached": True})
         return cache[key]
-    M0 = witness(M)
-    U0, s0, V0 = np.linalg.svd(M0, full_matrices=bool(full_matrices))
+    M0 = witness_or_none(M)
+    res0 = _safe(np.linalg.svd, M0, full_matrices=bool(full_matrices)) if M0 is not None else None
+    if res0 is None:
+        c.on_witness = False
+        U0 = s0 = V0 = None
+    else:
+        U0, s0, V0 = res0
+    M = alias_entries(M, routine_name)
+    Mo = obj(M)
     k = r if k_keep is None else k_keep
     if k > r:
         raise ValueError(f"k={k} exceeds min(shape)={r}")
@@ -131,14 +175,14 @@ def _svd_generic(M, k_keep, full_matrices, routine_name, exact=True):
         ucols, vrows = n, p
     else:
         ucols, vrows = k, k
-    U = sym_array((n, ucols), f"U{idn}", cplx, U0[:, :ucols], kind="stub")
-    s = sym_array((k,), f"s{idn}", False, s0[:k], kind="stub")
-    VT = sym_array((vrows, p), f"W{idn}", cplx, V0[:vrows, :], kind="stub")
+    U = sym_array((n, ucols), f"U{idn}", cplx, None if U0 is None else U0[:, :ucols], kind="stub")
+    s = sym_array((k,), f"s{idn}", False, None if s0 is None else s0[:k], kind="stub")
+    VT = sym_array((vrows, p), f"W{idn}", cplx, None if V0 is None else V0[:vrows, :], kind="stub")
     tag = f"{routine_name}#{idn}"
     svd_contract(M, U, s, VT, tag, exact=(exact and k == r))
     if k < r:
         # truncated decomposition: M = U_k S_k V_k^H + R  with  U_k^H R = 0 and R V_k = 0
-        R = sym_array((n, p), f"R{idn}", cplx, M0 - (U0[:, :k] * s0[:k]) @ V0[:k, :], kind="stub")
+        R = sym_array((n, p), f"R{idn}", cplx, None if U0 is None else M0 - (U0[:, :k] * s0[:k]) @ V0[:k, :], kind="stub")
         Uo, so, Vo, Ro = obj(U), obj(s), obj(VT), obj(R)
         for i in range(n):
             for j in range(p):
@@ -224,9 +268,13 @@ def _np_inv(A):
     if key in cache:
         return cache[key]
     cplx = reported_dtype(A).kind == "c"
-    A0 = witness(A)
-    B0 = np.linalg.inv(A0)
+    A0 = witness_or_none(A)
+    B0 = _safe(np.linalg.inv, A0) if A0 is not None else None
+    if B0 is None:
+        c.on_witness = False
     idn = len(cache)
+    A = alias_entries(A, "inv")
+    Ao = obj(A)
     det, adj = _det_and_adj(Ao)
     if det is not None and c.options.get("inv", "fresh") == "adjugate":
         out = np.empty((n, n), dtype=object)
@@ -266,9 +314,13 @@ def _np_pinv(A, rcond=None, hermitian=False, *, rtol=None):
     if key in cache:
         return cache[key]
     cplx = reported_dtype(A).kind == "c"
-    A0 = witness(A)
-    B0 = np.linalg.pinv(A0)
+    A0 = witness_or_none(A)
+    B0 = _safe(np.linalg.pinv, A0) if A0 is not None else None
+    if B0 is None:
+        c.on_witness = False
     idn = len(cache)
+    A = alias_entries(A, "pinv")
+    Ao = obj(A)
     B = sym_array((p, n), f"pinv{idn}", cplx, B0, kind="stub")
     Bo = obj(B)
     if n > p:
@@ -336,11 +388,16 @@ def _np_eig(A):
     key = _key(A)
     if key in cache:
         return cache[key]
-    A0 = witness(A)
-    w0, P0 = np.linalg.eig(A0)
-    w0 = w0.astype(complex)
-    P0 = P0.astype(complex)
+    A0 = witness_or_none(A)
+    r0 = _safe(np.linalg.eig, A0) if A0 is not None else None
+    if r0 is None:
+        c.on_witness = False
+        w0 = P0 = None
+    else:
+        w0, P0 = r0[0].astype(complex), r0[1].astype(complex)
     idn = len(cache)
+    A = alias_entries(A, "eig")
+    Ao = obj(A)
     lam = sym_array((n,), f"lam{idn}", True, w0, kind="stub")
     P = sym_array((n, n), f"P{idn}", True, P0, kind="stub")
     lo, Po = obj(lam), obj(P)
@@ -420,11 +477,16 @@ def promax_stub(X, power=1, max_iter=1000, rtol=1e-8, compute=True):
     if m < 2:
         raise ValueError("Cannot rotate {:} modes (columns), but must be 2 or more.".format(m))
     cplx = reported_dtype(X).kind == "c"
-    X0 = witness(X)
-    Xr0, R0, phi0 = PROMAX_REAL(X0, power=power, max_iter=1000, rtol=1e-10, compute=True)
+    X0 = witness_or_none(X)
+    r0 = _safe(PROMAX_REAL, X0, power=power, max_iter=1000, rtol=1e-10, compute=True) if X0 is not None else None
+    if r0 is None:
+        c.on_witness = False
+        R0 = phi0 = None
+    else:
+        Xr0, R0, phi0 = r0
     idn = len(c.caches.setdefault("promax", {}))
     c.caches["promax"][idn] = True
-    R = sym_array((m, m), f"R{idn}", cplx, np.asarray(R0), kind="stub")
+    R = sym_array((m, m), f"R{idn}", cplx, None if R0 is None else np.asarray(R0), kind="stub")
     Ro = obj(R)
     tag = f"promax#{idn}"
     if power == 1:
@@ -441,7 +503,7 @@ def promax_stub(X, power=1, max_iter=1000, rtol=1e-8, compute=True):
         if cplx:
             phi = phi.astype(complex)
     else:
-        phi = sym_array((m, m), f"phi{idn}", cplx, np.asarray(phi0), kind="stub")
+        phi = sym_array((m, m), f"phi{idn}", cplx, None if phi0 is None else np.asarray(phi0), kind="stub")
         G = np.conjugate(R).T @ R
         PG = obj(phi @ G)
         for a in range(m):
@@ -470,9 +532,10 @@ def sign_multiplier_stub(data, dim):
     if not isinstance(data.data, SymArray) or cur().options.get("sign", "stub") != "stub":
         return SIGN_REAL(data, dim)
     c = cur()
-    w = witness(data.data)
-    if np.iscomplexobj(w) and not reported_dtype(data.data).kind == "c":
-        w = w.real
+    w = witness_or_none(data.data)
+    if w is None:
+        c.on_witness = False
+        w = np.ones(data.shape)
     ref = SIGN_REAL(data.copy(data=w), dim)
     idn = len(c.caches.setdefault("sign", {}))
     c.caches["sign"][idn] = True
